@@ -205,6 +205,36 @@ func debugMain(dump, listPkg string, morph bool, overlay map[string][]byte) {
 			n := fnName(f)
 			if n == dump || strings.HasSuffix(n, dump) {
 				fmt.Printf("=== %s (%s)\n", n, w.rel(f.Pos()))
+				if pat := os.Getenv("HSDK_EFF"); pat != "" {
+					// compact mode: only matching effects / returns, one condition per line, truncated
+					tr := func(s string) string {
+						if len(s) > 230 {
+							return s[:230] + "…"
+						}
+						return s
+					}
+					for _, e := range effectsOf(f) {
+						if glob(pat, e.Str) {
+							fmt.Printf("EFF %s b%d %s\n", w.rel(instrPos(e.Ins)), e.Ins.Block().Index, tr(e.Str))
+							for _, c := range e.Conds() {
+								fmt.Printf("      | %s\n", tr(c))
+							}
+						}
+					}
+					if pat == "RET" {
+						for _, o := range returnOutcomes(f) {
+							var vs []string
+							for _, v := range o.Vals {
+								vs = append(vs, tr(term(v)))
+							}
+							fmt.Printf("RET %s %v success?=%v vals=%v\n", w.rel(instrPos(o.Ret)), o.Sentinels, o.isPotentialSuccess(), vs)
+							for _, c := range o.Conds {
+								fmt.Printf("      | %s\n", tr(c))
+							}
+						}
+					}
+					continue
+				}
 				dumpFn(w, f)
 				for _, e := range effectsOf(f) {
 					if strings.HasPrefix(e.Str, "return") {
